@@ -1,26 +1,126 @@
-(* Properties_C13.v — C13: iter(), state_dict() and load_state_dict() compose as documented.
-   Nodes Loader part on NodeModel.v (proofs in NodeResumeProofs.v); see DESIGN.md 4 C13 for the
-   StatefulDataLoader front-end. *)
-From PD Require Import Base NodeModel NodeObs NodeResumeProofs.
+(* Properties_C13.v — C13: iter(), state_dict() and load_state_dict() compose as documented in any order.
+   Nodes Loader part.  Model: NodeModel.v (ld_iter / ld_next / ld_state_dict / ld_load with the
+   LoaderIterator look-ahead cache); reference: the list machine [rl] of ApiProofs.v — epochs are the
+   lists [sem p e], a cursor, an optional pending state, and the "created by state_dict()" flag — about
+   30 lines, readable in a minute.  [run_history] is the model driven by an arbitrary finite op
+   sequence over {iter, next, state_dict, load_state_dict(any earlier state), new Loader object}.
+   Statements printed by Coq from the proof files (harness/mkprops.py).
+   The refinement holds for ALL op sequences; the side condition [faithful_ok p restart :=
+   restart || no_sampler p || lazy_resume p] excludes exactly the known finding D15: restoring an
+   Unbatcher / Prefetcher / ParallelMapper pulls from its source, so an epoch-dependent sampler below
+   it counts the epoch as started although the user requested nothing (counterexamples
+   loader_refines_ref_cex_* are Qed-closed in ApiProofs.v). *)
+From PD Require Import Base NodeModel NodeObs NodeResumeProofs ApiProofs.
 Open Scope string_scope. Open Scope list_scope. Open Scope nat_scope.
 
-(* a state taken inside the epoch resumes there, whatever restart_on_stop_iteration is *)
-Theorem C13_loader_resume_mid : forall p k restart0 restart, pipe_ok p = true -> k < length (sem p 0) ->
-  ld_drain p (FUEL p) (ld_resumed p restart0 restart k) = (skipn k (sem p 0), true).
+Theorem C13_loader_refines_gen :
+  forall (p : pipe) (restart look : bool) (ops : list hop),
+       pipe_ok p = true ->
+       wf_ops ops = true ->
+       compat p restart look = true \/ no_load ops = true ->
+       map strip_state (run_history p restart ops ld_new []) = ref_hist_from p restart look ops rl_new [].
+Proof. exact loader_refines_gen. Qed.
+Print Assumptions C13_loader_refines_gen.
+
+Theorem C13_loader_refines_ref :
+  forall (p : pipe) (restart : bool) (ops : list hop),
+       pipe_ok p = true ->
+       wf_ops ops = true ->
+       faithful_ok p restart = true ->
+       map strip_state (run_history p restart ops ld_new []) = ref_history p restart ops.
+Proof. exact loader_refines_ref. Qed.
+Print Assumptions C13_loader_refines_ref.
+
+Theorem C13_loader_refines_ref_restart :
+  forall (p : pipe) (ops : list hop),
+       pipe_ok p = true ->
+       wf_ops ops = true -> map strip_state (run_history p true ops ld_new []) = ref_history p true ops.
+Proof. exact loader_refines_ref_restart. Qed.
+Print Assumptions C13_loader_refines_ref_restart.
+
+Theorem C13_loader_refines_ref_no_load :
+  forall (p : pipe) (restart : bool) (ops : list hop),
+       pipe_ok p = true ->
+       wf_ops ops = true ->
+       no_load ops = true ->
+       map strip_state (run_history p restart ops ld_new []) = ref_history p restart ops.
+Proof. exact loader_refines_ref_no_load. Qed.
+Print Assumptions C13_loader_refines_ref_no_load.
+
+Theorem C13_loader_refines_ideal_ref :
+  forall (p : pipe) (restart : bool) (ops : list hop),
+       pipe_ok p = true ->
+       wf_ops ops = true ->
+       no_sampler p = true ->
+       map strip_state (run_history p restart ops ld_new []) = ideal_ref_history p restart ops.
+Proof. exact loader_refines_ideal_ref. Qed.
+Print Assumptions C13_loader_refines_ideal_ref.
+
+Theorem C13_state_dict_before_iter_free_gen :
+  forall (p : pipe) (restart : bool) (rest : list hop),
+       pipe_ok p = true ->
+       no_load rest = true ->
+       wf_from true 0 rest = true ->
+       map strip_state (run_history p restart (HState :: HIter :: rest) ld_new []) =
+       OS "state" :: map strip_state (run_history p restart (HIter :: rest) ld_new []).
+Proof. exact state_dict_before_iter_free_gen. Qed.
+Print Assumptions C13_state_dict_before_iter_free_gen.
+
+Theorem C13_state_dict_before_iter_starts_at_0 :
+  forall (p : pipe) (restart : bool) (n : nat),
+       pipe_ok p = true ->
+       map strip_state (run_history p restart (HState :: HIter :: repeat HNext n) ld_new []) =
+       OS "state" :: OS "iter" :: ref_nexts (sem p 0) n.
+Proof. exact state_dict_before_iter_starts_at_0. Qed.
+Print Assumptions C13_state_dict_before_iter_starts_at_0.
+
+Theorem C13_saved_states_positions :
+  forall (p : pipe) (restart : bool) (ops : list hop),
+       pipe_ok p = true ->
+       wf_ops ops = true ->
+       faithful_ok p restart = true \/ no_load ops = true ->
+       Forall2 (sd_ok p) (saved_states p restart ops) (ref_positions p restart ops).
+Proof. exact saved_states_positions. Qed.
+Print Assumptions C13_saved_states_positions.
+
+Theorem C13_saved_state_is_position :
+  forall (p : pipe) (restart restart' : bool) (ops : list hop) (i : nat) (s : sd) (e k : nat),
+       pipe_ok p = true ->
+       wf_ops ops = true ->
+       faithful_ok p restart = true \/ no_load ops = true ->
+       nth_error (saved_states p restart ops) i = Some s ->
+       nth_error (ref_positions p restart ops) i = Some (e, k) ->
+       k <= Datatypes.length (sem p e) /\
+       sd_field s "num_yielded" = SNat k /\
+       (k < Datatypes.length (sem p e) ->
+        ld_drain p (FUEL p) (ld_iter p restart' (ld_load ld_new s)) = (skipn k (sem p e), true)) /\
+       (k = Datatypes.length (sem p e) ->
+        ld_drain p (FUEL p) (ld_iter p true (ld_load ld_new s)) = (sem p (S e), true) /\
+        ld_drain p (FUEL p) (ld_iter p false (ld_load ld_new s)) = ([], true)).
+Proof. exact saved_state_is_position. Qed.
+Print Assumptions C13_saved_state_is_position.
+
+Theorem C13_loader_resume_mid :
+  forall (p : pipe) (k : nat) (restart0 restart : bool),
+       pipe_ok p = true ->
+       k < Datatypes.length (sem p 0) ->
+       ld_drain p (FUEL p) (ld_resumed p restart0 restart k) = (skipn k (sem p 0), true).
 Proof. exact loader_resume_mid. Qed.
 Print Assumptions C13_loader_resume_mid.
 
-(* a state taken after the last item resumes into the next epoch ... *)
-Theorem C13_end_state_resumes_next_epoch : forall p restart0, pipe_ok p = true ->
-  ld_drain p (FUEL p) (ld_resumed p restart0 true (length (sem p 0))) = (sem p 1, true).
+Theorem C13_loader_resume_end_restart :
+  forall (p : pipe) (restart0 : bool),
+       pipe_ok p = true ->
+       ld_drain p (FUEL p) (ld_resumed p restart0 true (Datatypes.length (sem p 0))) = (sem p 1, true).
 Proof. exact loader_resume_end_restart. Qed.
-Print Assumptions C13_end_state_resumes_next_epoch.
+Print Assumptions C13_loader_resume_end_restart.
 
-(* ... or, with restart_on_stop_iteration = False, into an empty one *)
-Theorem C13_end_state_norestart_empty : forall p restart0, pipe_ok p = true ->
-  ld_drain p (FUEL p) (ld_resumed p restart0 false (length (sem p 0))) = ([], true).
+Theorem C13_loader_resume_end_norestart :
+  forall (p : pipe) (restart0 : bool),
+       pipe_ok p = true ->
+       ld_drain p (FUEL p) (ld_resumed p restart0 false (Datatypes.length (sem p 0))) = ([], true).
 Proof. exact loader_resume_end_norestart. Qed.
-Print Assumptions C13_end_state_norestart_empty.
+Print Assumptions C13_loader_resume_end_norestart.
 
 (* regression for D4 (fixed by d28e551): state_dict(); load_state_dict(sd); iter() starts from sd *)
 Example C13_state_load_iter :
